@@ -182,6 +182,25 @@ def judge_history(seq, mode):
     """seq of dump names; mode: 'kd' (same dicts, new KdBufParser each), 'kd1' (one KdBufParser object),
     'facade' (one PyKdebugParser), 'facade+traces' (a traces() run first that learns extra names)."""
     bad = []
+    if mode == 'kd-default':
+        # every parse through a NEW parser built without tables: each must end with its own dump's map, and a brand-new
+        # parser must start empty
+        for step, name in enumerate(seq):
+            if name in H_BROKEN:
+                continue
+            p0 = KdBufParser()
+            if p0.threads_pids or p0.pids_names:
+                return [('v2-new-parser-does-not-start-empty', {'step': step, 'tp': repr(p0.threads_pids)})], ((), ())
+            blob, threads, recs = build(*H_DUMPS[name])
+            g = p0.parse(io.BytesIO(blob))
+            first = next(g, None)
+            other = KdBufParser()
+            list(other.parse(io.BytesIO(build(*H_DUMPS['B'])[0])))      # another default-built parser runs to the end meanwhile
+            rest = list(g)
+            exp_tp, exp_pn = thread_tables(threads)
+            if p0.threads_pids != exp_tp or p0.pids_names != exp_pn:
+                return [('v2-history-leftover-or-missing-table-entry', {'step': step, 'mode': mode, 'tp': repr(p0.threads_pids), 'exp_tp': repr(exp_tp)})], ((), ())
+        return [], ((), ())
     if mode in ('kd', 'kd1'):
         tp, pn = {}, {}
         p = KdBufParser(tp, pn) if mode == 'kd1' else None
@@ -353,7 +372,7 @@ class C02(Check):
                         acc.violation(bad[0], {'kind': 'concurrent', 'a': a, 'b': b, 'schedule': list(sched)}, bad[1])
             acc.sample({'concurrent_parses': ['P', 'Q'], 'schedule': [0, 1, 0, 1, 1, 0]})
         else:
-            for mode in ('kd', 'kd1', 'facade', 'facade+traces'):
+            for mode in ('kd', 'kd1', 'facade', 'facade+traces', 'kd-default'):
                 for seq in list(seqs(list(H_DUMPS), 3, 1)) + [(b, d) for b in H_BROKEN for d in H_DUMPS] + \
                         [(d0, b, d) for d0 in ('A', 'B') for b in H_BROKEN for d in H_DUMPS]:
                     bad, st = judge_history(seq, mode)
